@@ -275,7 +275,12 @@ class Instrs(CallsMixin):
                 self.setreg(st, ins, scalar(rt, -x.term - 1))
             return
         if op == '<-':
-            raise OutOfSubset('channel receive')
+            # channel receive: the received value is unknown; scheduling is not modelled
+            self.cx.erased.add('channel receive')
+            v = V.fresh_val(types, rt, 'recv')
+            st.type_facts(v)
+            self.setreg(st, ins, v)
+            return
         raise OutOfSubset('unop ' + op)
 
     def op_ChangeInterface(self, st, fr, b, i, ins):
